@@ -30,3 +30,8 @@ pub(crate) use savepoint::SerializedSavepoint;
 
 pub(super) use base::{PageImpl, PageMut};
 pub(super) use xxh3::hash128_with_seed;
+
+#[cfg(redb_verif)]
+pub(crate) mod verif_export {
+    pub(crate) use super::buddy_allocator::BuddyAllocator;
+}
